@@ -249,7 +249,7 @@ func c18Extras3(c *Ctx) {
 	}
 	var initOff *ssa.Parameter
 	for _, p := range fn.Params {
-		if p.Name() == "initOffset" {
+		if paramName(p) == "initOffset" {
 			initOff = p
 		}
 	}
